@@ -42,11 +42,14 @@ LEVEL_NOTE = (
 TECHNIQUE = ("Lean 4 proof (lexeme-chain induction over a hand model of the lexer; mutual structural induction over derivation trees) + "
              "kernel-decided conditions on tables regenerated from live ppci objects + differential run of the real assembler")
 RULE = ("instances: every instruction class with a syntax of every configuration x every combination of operand constructors "
-        "(quick: <=10 per class, thorough: <=48) x systematic operand tuples (registers cycle through the whole class, integers through "
-        "49 boundary values incl. negatives, 8 label spellings incl. a capitalised mnemonic) + seeded random tuples; thorough: every "
-        "register of every register operand appears. An instance counts only if ppci can encode it directly. distinct = distinct "
-        "(configuration, printed text); non-trivial = instance with a negative integer, a label, a nested constructor operand, "
-        "more than one derivation, or a failing outcome")
+        "(quick: <=10 per class by stride sampling, thorough: <=48) x systematic operand tuples (registers cycle through the whole class, "
+        "integers through 49 boundary values incl. negatives, 8 label spellings incl. a capitalised mnemonic) + a BOUNDARY pass: every "
+        "integer operand, also inside nested constructor operands (shifts, addressing modes, immediates), takes 0, 1, -1, the largest and "
+        "smallest value ppci encodes there (probed through 2^k, 2^k-1, -2^k) and a random one, for every sampled constructor combination "
+        "(quick: all classes of arm/thumb/x86_64/riscv and a seed-rotated third of the others; thorough: all) + seeded random tuples; "
+        "thorough: every register of every register operand appears. The text is always str() of the LIVE object. An instance counts only "
+        "if ppci can encode it directly. distinct = distinct (configuration, printed text); non-trivial = instance with a negative "
+        "integer, a label, a nested constructor operand, more than one derivation, or a failing outcome")
 TRUSTED = [
     "translate/c09_tables.py (T2 dump of syntaxes, register names, keywords, grammar productions and priorities)",
     "hand models Model.AsmLex / Model.AsmSyn / Model.AsmParse (tied by differential run on every check)",
